@@ -10,7 +10,9 @@
 
 struct Rng {  // splitmix64: every random choice of a run derives from VERIF_SEED
   uint64_t s;
-  explicit Rng(uint64_t seed) : s(seed * 0x9E3779B97F4A7C15ull + 0x1234567ull) {}
+  // the state is one OUTPUT of the generator started at the seed, not an affine function of it: otherwise seeds k and k+1 would
+  // give the same stream shifted by one call
+  explicit Rng(uint64_t seed) : s(seed * 0x9E3779B97F4A7C15ull + 0x1234567ull) { uint64_t a = next(), b = next(); s = a ^ (b << 1) ^ (seed * 0xD6E8FEB86659FD93ull); }
   uint64_t next() {
     uint64_t z = (s += 0x9E3779B97F4A7C15ull);
     z = (z ^ (z >> 30)) * 0xBF58476D1CE4E5B9ull;
